@@ -799,8 +799,10 @@ Section Body.
     let* (e, i1) := r F_compute inner in
     let* _ := close i1 in
     let* (m, t3) := pop_src t2 in
-    let mode := match assoc_str (upper m) generate_column_save_mode_hash with Some n => venum "EnumGenerateColumnSaveMode" n | None => VNone end in
-    Ok (node "ASTGeneratedColumn" [("expression", e); ("save_mode", mode)], t3).
+    match assoc_str (upper m) generate_column_save_mode_hash with
+    | Some n => Ok (node "ASTGeneratedColumn" [("expression", e); ("save_mode", venum "EnumGenerateColumnSaveMode" n)], t3)
+    | None => Err ParseErr
+    end.
 
   Record colattrs := mkca { ca_comment : value; ca_unsigned : bool; ca_zerofill : bool; ca_charset : value; ca_collate : value;
                             ca_generated : value; ca_allow_null : bool; ca_not_null : bool; ca_auto_inc : bool;
